@@ -13,13 +13,32 @@ RULE = ("(1) every viable token prefix up to the tier's length bound (quick 9, t
         "delete/swap) and random line splits.  Every case is fed to the real Parser (tokens made by the real Lexer), "
         "to the extracted automaton model and to the extracted reference parser.  Non-trivial = accepted program "
         "with >= 1 statement; distinct = distinct token lists")
-NOTES = ["oracle: the reference parser (Parse/RefParser.v, proved equivalent to the grammar relation) run on the same "
-         "tokens: verdict, error index, and the full tree including source locations must be equal",
-         "correspondence: the automaton model's output line must equal the implementation's",
+NOTES = ["theorems (Props/C09.v, all full strength, closed under the global context): parse_never_stuck / "
+         "feed_never_stuck (stack-shape invariant of DESIGN Appendix A, one judgement per state; Goto fuel 2|stack|+8 "
+         "suffices) -- also serves C08; feed_split_irrelevant; refparser_sound_complete + refparser_error_index "
+         "(reference parser <=> grammar relation; reject index = length of the longest viable prefix); "
+         "automaton_eq_refparser (same verdict, same statements INCLUDING every Loc, same error index, for every "
+         "token list, not only those ending in EOF); automaton_accepts_grammar, automaton_error_index, "
+         "unfinished_is_viable as corollaries",
+         "hypothesis of the automaton theorems: tok_ok for every token (identifiers and literals carry their text, hex "
+         "literals start with 0x) -- what src/lex.rs guarantees by construction (TokType::get_val); to be discharged "
+         "against the lexer model by C10.  Without it the model returns Panic exactly where Token::val()/"
+         "strip_prefix().unwrap() would",
+         "location convention (part of Parse/RefParser.v, compared exactly): literal = its first token, import/let = "
+         "the identifier, reference = its first identifier, EXCEPT a reference that starts a positional argument, "
+         "which carries the location of the token after that identifier (state_arg_name builds the PathBuilder "
+         "from the lookahead token): f(x) gives x the location of ')'",
+         "oracle: the extracted reference parser (proved equivalent to the grammar relation) run on the same "
+         "tokens: verdict, error index, and the full tree including source locations must be equal; "
+         "correspondence: the automaton model's output line must equal the implementation's; "
+         "split-irrelevance is also checked on the implementation alone (same tokens with and without line breaks)",
          "the real Lexer concatenates adjacent string literals, so each token is lexed on its own; this lets the check "
          "feed the parser STR STR sequences the CLI can never produce",
-         "T3: (state, token kind) dispatch entries the model exercised on the compared cases are listed in model_coverage; "
-         "entries never exercised are unreachable under the stack invariant (e.g. ReduceRefNaked on '.', '(')"]
+         "T3: 675 of the 39x18 = 702 (state, token kind) dispatch entries are exercised; the other 27 are unreachable "
+         "(ExprStmt is entered only on an identifier; ReduceRefNaked/ReduceRefExpr never see '(' or '.'; "
+         "ReduceArg/ArgNext/ReduceExpr/ReduceBop/ExprStmtEnd/AssignStmtEnd never see '/') -- listed in model_coverage",
+         "not covered: resource limits of deep nesting (D24: Program::eval and drop of Box<Expr> recurse; the parser "
+         "itself is iterative) -- C08's generators watch that"]
 MODELLED = ("src/parse.rs (all of it), Val::from_token (Lex/Literals.v) are modelled in Parse/Automaton.v; theorems are "
             "about the model, tied by exhaustive bounded enumeration and random comparison of verdict, error index and "
             "tree with the real Parser")
